@@ -120,10 +120,14 @@ theorem run2_eq_rodSeries (q : RodRun2.P) (x t : ℝ) (h : RodRun2.outcome q x t
   simp only [Finset.sum_range_succ, Finset.sum_range_zero, arr2, runStatic]
   simp only [epv_tree, epv_cond] at *
   by_cases h0 : q.alpha1 = 0 <;> by_cases h1 : q.beta1 = 0 <;> by_cases h2 : q.alpha2 = 0 <;> by_cases h3 : q.beta2 = 0 <;>
-    by_cases h4 : q.gamma1 / q.beta1 = q.gamma2 / q.beta2 <;>
-    simp only [h0, h1, h2, h3, h4, if_true, if_false, ne_eq, not_true_eq_false, not_false_eq_true, and_self, and_true,
-      true_and, and_false, false_and, reduceCtorEq, one_ne_zero] at h ⊢ <;>
-    (simp only [bc1Static_real, bc2Static_real, bc3Static_real, bc4Static_real, genStatic_real, runP, epv_leaf, h0, h2] <;> first | ring1 | ring_nf)
+    simp only [h0, h1, h2, h3, if_true, if_false, ne_eq, not_true_eq_false, not_false_eq_true, and_self, and_true,
+      true_and, and_false, false_and, one_ne_zero] at h ⊢ <;>
+    first
+    | (simp only [bc1Static_real, bc3Static_real, bc4Static_real, genStatic_real, runP, epv_leaf, h0, h2]; ring1)
+    | (simp only [bc1Static_real, bc3Static_real, bc4Static_real, genStatic_real, runP, epv_leaf, h0, h2]; ring_nf; done)
+    | (by_cases h4 : q.gamma1 / q.beta1 = q.gamma2 / q.beta2 <;>
+        simp only [h4, if_true, if_false, reduceCtorEq] at h ⊢ <;>
+        (simp only [bc2Static_real, runP, epv_leaf, h0, h2]; first | ring1 | (ring_nf; done)))
 
 end
 
